@@ -130,6 +130,9 @@ func mutate(c *h.Ctx, t target, m []byte) {
 	if len(m) > 200 && !c.Thorough() {
 		step = 1 + len(m)/150
 	}
+	if len(m) > 4096 && c.Thorough() { // long seeds (lists of thousands of elements): every position would be quadratic
+		step = 1 + len(m)/3000
+	}
 	for l := 0; l < len(m); l++ {
 		if l < 24 || l > len(m)-24 || l%step == 0 {
 			measure(c, t, "truncation", m[:l])
@@ -167,6 +170,8 @@ func mutate(c *h.Ctx, t target, m []byte) {
 	bstep := 1
 	if !c.Thorough() {
 		bstep = 1 + 8*len(m)/400
+	} else if len(m) > 2048 {
+		bstep = 1 + 8*len(m)/16000
 	}
 	for i := 0; i < 8*len(m); i += bstep {
 		measure(c, t, "bitflip", flipBit(m, i))
